@@ -555,6 +555,29 @@ func plainObject(t *core.Tape, v interface{}) []byte {
 	return append(out, '}')
 }
 
+// textAccepted: does the type's own text parser (default rule, current limits) accept s?
+func textAccepted(ty int, s string) (ok bool) {
+	defer func() {
+		if recover() != nil {
+			ok = false
+		}
+	}()
+	var err error
+	switch ty {
+	case TDate:
+		_, err = date.DefaultParser(s, 0)
+	case TRoman:
+		_, err = roman.DefaultParser(s, 0)
+	case TSem:
+		_, err = sem.DefaultParser(s, 0)
+	case TSize:
+		_, err = size.DefaultParser(s, 0)
+	default:
+		_, err = uu.DefaultParser(s, 0)
+	}
+	return err == nil
+}
+
 // sqlScanner is database/sql.Scanner.
 type sqlScanner interface{ Scan(src interface{}) error }
 
@@ -779,9 +802,10 @@ func (h *hist) opCall() {
 			h.memo[key] = now
 		}
 	}
-	// D for Scan: the same text handed over as string and as []byte (drivers differ in that)
-	// must both be accepted with the same value or both be refused. The texts of the two
-	// refusals are not compared: the library's own message names the dynamic type of the source.
+	// D for Scan: a valid text of the type handed over as string and as []byte (drivers differ
+	// in that) must both be accepted with the same value or both be refused. The texts of the
+	// two refusals are not compared: the library's own message names the dynamic type of the
+	// source. Content that is no valid text is only judged if both source types are accepted.
 	if entry == EScan && (scanKind == 4 || scanKind == 5) && !panicked {
 		var twin interface{} = append([]byte(nil), preIn...)
 		if scanKind == 5 {
@@ -801,7 +825,15 @@ func (h *hist) opCall() {
 		}()
 		d2 := p2.Elem().Interface()
 		h.res.Probes.Inc("scan_text_both_types")
-		if !twinPanicked && ((err == nil) != (err2 == nil) || (err == nil && d2 != h.cur(ty))) {
+		disagree := !twinPanicked && ((err == nil) != (err2 == nil) || (err == nil && d2 != h.cur(ty)))
+		if disagree && (err == nil) != (err2 == nil) && !textAccepted(ty, string(preIn)) {
+			// one source type was accepted although the content is no valid text of the type: that
+			// source type is read as something other than text (16 raw bytes of a BINARY(16) column
+			// are a UUID for many drivers). Not a disagreement about parsing a text: not judged.
+			disagree = false
+			h.res.Probes.Inc("scan_non_text_interpretation_not_judged")
+		}
+		if disagree {
 			e2 := ""
 			if err2 != nil {
 				e2 = err2.Error()
